@@ -246,12 +246,16 @@ def response_term(h, out):
 
 
 def rows_ok(h, local, view="bag"):
-    """200 body == the engine's rows (as bags), the x-qe-rows header == their number, the schema the engine's."""
+    """200 body == the engine's rows (as bags), the x-qe-rows header == their number, the schema the engine's.
+    view "count" (duplicate column names in a JSON body: one object per row, later columns overwrite earlier ones of the
+    same name) compares the number of rows only."""
     if h.get("status") != 200 or not local.get("ok"):
         return h.get("status") != 200
     d = h.get("decoded") or {}
     if "decode_error" in d or "bag" not in d:
         return False
+    if view == "count":
+        return d["bag"]["n"] == local["bag"]["n"] and h["headers"].get("x-qe-rows") == str(local["row_count"]) and d.get("unknown_keys") is False
     want = local[view]
     if d["bag"]["hash"] != want["hash"] or d["bag"]["n"] != want["n"]:
         return False
@@ -284,6 +288,8 @@ def encoding_class(h, local):
 def encoding_view(h, local):
     """The bag the modelled writer produces for a result of a known class (what impl == model compares with)."""
     c = encoding_class(h, local)
+    if c == "json-duplicate-column-names":
+        return "count"
     if c == "json-non-finite-double":
         return "json_bag"
     if c == "csv-empty-string":
